@@ -13,7 +13,7 @@ pub fn def() -> PropDef {
         nontrivial,
         functional: true,
         post: super::no_post,
-        rule: "values of a recursive 'any serde type' whose Serialize impl calls exactly the Serializer method each constructor names (every integer width at its extremes incl. i128/u128, f32/f64 incl. NaN/inf, bool, char, strings, bytes, options, unit, unit structs, all four variant kinds, newtype/tuple structs, sequences, tuples, maps with supported and unsupported key kinds, structs, the Duration/Timestamp wrappers), depth <= 5, plus JSON documents; observed: to_value's result, its JSON export, and serde_json::to_value of the same data; predicate on the implementation: no panic, and for JSON-representable data with text-distinct keys the two JSON documents are equal; non-trivial = the data has at least one compound constructor; distinct = distinct data",
+        rule: "std network address types (whose Serialize impl consults is_human_readable) alone, in sequences, maps, options and a struct: to_value(x).json() must equal serde_json::to_value(x) (predicate only); values of a recursive 'any serde type' whose Serialize impl calls exactly the Serializer method each constructor names (every integer width at its extremes incl. i128/u128, f32/f64 incl. NaN/inf, bool, char, strings, bytes, options, unit, unit structs, all four variant kinds, newtype/tuple structs, sequences, tuples, maps with supported and unsupported key kinds, structs, the Duration/Timestamp wrappers), depth <= 5, plus JSON documents; observed: to_value's result, its JSON export, and serde_json::to_value of the same data; predicate on the implementation: no panic, and for JSON-representable data with text-distinct keys the two JSON documents are equal; non-trivial = the data has at least one compound constructor; distinct = distinct data",
         exhaustive_note: "every Serializer method is exercised at least once (fixed catalogue); nesting is sampled",
     }
 }
@@ -159,6 +159,13 @@ pub fn generate(tier: Tier, rng: &mut Rng) -> Vec<Case> {
         let d = 1 + rng.below(4) as u32;
         push(&json_doc(rng, d), "json-doc");
     }
+    // host types whose Serialize impl depends on `is_human_readable()` (predicate only: the data
+    // model of the Lean side has no such notion)
+    for i in 0..9 {
+        let mut c = Case::new("serdehr", i.to_string());
+        c.tags = vec!["human-readable", "compound", "no-model"];
+        out.push(c);
+    }
     out
 }
 
@@ -214,6 +221,9 @@ fn json_native(x: &crate::sx::Sx) -> bool {
 pub fn predicate(case: &Case, impl_ans: &str) -> Option<String> {
     if impl_ans.contains("(panic)") {
         return Some("conversion panicked".into());
+    }
+    if case.kind == "serdehr" {
+        return if impl_ans == "(serdehr same)" { None } else { Some(format!("for a host type that serialises differently for human-readable formats, to_value(x).json() and serde_json::to_value(x) differ: {impl_ans}")) };
     }
     let p = parse_all(impl_ans);
     let l = p.first()?.as_list()?;
